@@ -31,6 +31,8 @@ use crate::propagators::Task;
 const LO: i32 = -2;
 const HI: i32 = 3;
 const DMAX: i32 = 2;
+/// the largest duration any harness may ask for (`sem` looks at LO ..= HI + DMAX_LIMIT - 1)
+const DMAX_LIMIT: i32 = 3;
 
 struct Instance {
     /// number of profile tasks (1 or 2); the propagated task is variable `np + 1`
@@ -46,8 +48,8 @@ struct Instance {
 fn sem(inst: &Instance, at: fn(usize) -> i64) -> bool {
     let n = inst.np + 1;
     let mut ok = true;
-    // the time points LO ..= HI + DMAX - 1 (outside them nothing can run)
-    unroll!(k in [0, 1, 2, 3, 4, 5, 6] {
+    // the time points LO ..= HI + DMAX_LIMIT - 1 (outside them nothing can run)
+    unroll!(k in [0, 1, 2, 3, 4, 5, 6, 7] {
         let t = LO as i64 + k as i64;
         let mut load: i64 = 0;
         unroll!(i in [1, 2, 3] {
@@ -66,6 +68,10 @@ fn sem(inst: &Instance, at: fn(usize) -> i64) -> bool {
 }
 
 fn any_instance(np: usize) -> Instance {
+    any_instance_with(np, DMAX)
+}
+
+fn any_instance_with(np: usize, dmax: i32) -> Instance {
     let _ = shadow::assignments();
     let mut duration = [0i32; 4];
     let mut usage = [0i32; 4];
@@ -75,7 +81,7 @@ fn any_instance(np: usize) -> Instance {
             let u: i32 = kani::any();
             // `create_tasks` only keeps tasks with a positive duration and a positive usage
             // (obligation K-tasks below), so these are the tasks the handler can be given
-            kani::assume(d >= 1 && d <= DMAX && u >= 1 && u <= 4);
+            kani::assume(d >= 1 && d <= dmax && u >= 1 && u <= 4);
             duration[i] = d;
             usage[i] = u;
             shadow::init_within(i, LO, HI, 0);
@@ -85,7 +91,7 @@ fn any_instance(np: usize) -> Instance {
     kani::assume(capacity >= 0 && capacity <= 6);
     let start: i32 = kani::any();
     let end: i32 = kani::any();
-    kani::assume(LO <= start && start <= end && end <= HI + DMAX - 1);
+    kani::assume(LO <= start && start <= end && end <= HI + dmax - 1);
     let inst = Instance { np, duration, usage, capacity, start, end };
     // validity of the profile: every profile task has a mandatory part covering [start, end]
     unroll!(i in [1, 2] {
@@ -135,11 +141,29 @@ fn options(explanation_type: CumulativeExplanationType, allow_holes: bool) -> Cu
 /// The body of `propagate_single_profiles` for one (profile, task) pair: the real decision which
 /// updates are possible, then the real propagations in the order the engine applies them.
 fn propagate_task(np: usize, explanation_type: CumulativeExplanationType, allow_holes: bool) {
-    let inst = any_instance(np);
+    propagate_task_with(np, explanation_type, allow_holes, DMAX)
+}
+
+fn propagate_task_with(
+    np: usize,
+    explanation_type: CumulativeExplanationType,
+    allow_holes: bool,
+    dmax: i32,
+) {
+    let inst = any_instance_with(np, dmax);
     monitor::pick_points(np + 1);
     monitor::set_semantics(sem(&inst, monitor::v), sem(&inst, monitor::w));
     let (tasks, profile) = build(&inst);
     let task = Rc::clone(&tasks[np]);
+    if allow_holes {
+        // the shadow store has room for 2 holes per variable: of a removed range in the middle
+        // of the domain only the first two removals are followed (each one is checked by the
+        // tap before the execution is cut)
+        #[cfg(kani)]
+        unsafe {
+            shadow::CUT_AT_HOLE_CAPACITY = true;
+        }
+    }
     // only `capacity` and `options` of the parameters are read by the code under test
     let mut all: Vec<Task<DomainId>> = Vec::with_capacity(1);
     all.push(Task {
@@ -154,8 +178,12 @@ fn propagate_task(np: usize, explanation_type: CumulativeExplanationType, allow_
     let (lower, upper, holes) = crate::propagators::verif_possible_updates(
         &mut context, &task, &profile, &parameters,
     );
-    kani::cover!(lower, "lower bound update possible");
-    kani::cover!(upper, "upper bound update possible");
+    if allow_holes {
+        kani::cover!(holes, "hole update possible");
+    } else {
+        kani::cover!(lower, "lower bound update possible");
+        kani::cover!(upper, "upper bound update possible");
+    }
     let mut handler = CumulativePropagationHandler::new(explanation_type);
     handler.next_profile();
     let mut status: PropagationStatusCP = Ok(());
@@ -201,6 +229,18 @@ cumulative_harness!(cumulative_naive_1, 1, CumulativeExplanationType::Naive, fal
 cumulative_harness!(cumulative_big_step_1, 1, CumulativeExplanationType::BigStep, false);
 cumulative_harness!(cumulative_pointwise_1, 1, CumulativeExplanationType::Pointwise, false);
 cumulative_harness!(cumulative_big_step_1_holes, 1, CumulativeExplanationType::BigStep, true);
+
+// Holes with pointwise explanations; durations up to 3 so that a profile can be 3 time points
+// long (the explanation point of a removal before the profile start is
+// min(time_point + duration - 1, middle of the profile), which differs from the profile start
+// only then).
+verif_harness! {
+    #[kani::unwind(10)]
+    fn cumulative_pointwise_1_holes() {
+        propagate_task_with(1, CumulativeExplanationType::Pointwise, true, DMAX_LIMIT);
+    }
+}
+
 cumulative_harness!(cumulative_naive_2, 2, CumulativeExplanationType::Naive, false);
 cumulative_harness!(cumulative_big_step_2, 2, CumulativeExplanationType::BigStep, false);
 cumulative_harness!(cumulative_pointwise_2, 2, CumulativeExplanationType::Pointwise, false);
